@@ -251,13 +251,16 @@ func CheckC14(opt C14Options) int {
 		nProj, k, fine = 900, 24, 25
 	}
 	type caseT struct {
-		proj    Project
-		flavour string
-		backend string
-		units   []Unit
-		foreign int // index of a unit that compiles ANOTHER project (process history only, not judged)
+		proj        Project
+		flavour     string
+		backend     string
+		units       []Unit
+		foreign     int // index of a unit that compiles ANOTHER project under the canonical plan
+		foreignCase int // the case whose unit 0 is the canonical run of that project
 	}
 	var cases []caseT
+	projs := make([]Project, nProj)
+	flavours := make([]string, nProj)
 	for pi := 0; pi < nProj; pi++ {
 		r := core.Sub(opt.Seed, "c14", "proj", pi)
 		fl := "ok"
@@ -271,7 +274,10 @@ func CheckC14(opt C14Options) int {
 		default:
 			fl = "cycle"
 		}
-		proj := GenProject(r, fl)
+		projs[pi], flavours[pi] = GenProject(r, fl), fl
+	}
+	for pi := 0; pi < nProj; pi++ {
+		proj, fl := projs[pi], flavours[pi]
 		for _, be := range []string{"native", "wasm"} {
 			c := caseT{proj: proj, flavour: fl, backend: be}
 			mk := func(pl Plan) Unit {
@@ -281,11 +287,13 @@ func CheckC14(opt C14Options) int {
 			// history: the very same compile again in the same process
 			c.units = append(c.units, mk(Canonical()))
 			c.units = append(c.units, mk(Plan{Strategy: "lifo", MapMode: "reverse"}))
-			// history: a different project compiled in between (what a playground or a
-			// test binary does); its own output is not judged here
-			rf := core.Sub(opt.Seed, "c14", "foreign", pi, be)
+			// history: ANOTHER project compiled in between (what a playground or a test
+			// binary does) - the next project of the batch, which has the same directory
+			// and module names but different contents. Its output is compared with ITS
+			// canonical run (unit 0 of its own case) once all cases have run.
 			c.foreign = len(c.units)
-			c.units = append(c.units, Unit{Project: GenProject(rf, core.Pick(rf, []string{"ok", "errors"})), Backend: be, Plan: RandomPlan(rf, 0), KeepGen: true, Tools: "stub"})
+			c.foreignCase = 2*((pi+1)%nProj) + len(cases)%2
+			c.units = append(c.units, Unit{Project: projs[(pi+1)%nProj], Backend: be, Plan: Canonical(), KeepGen: true, Tools: "stub"})
 			// map order alone, schedule alone, then both
 			rs := core.Sub(opt.Seed, "c14", "plans", pi, be)
 			mo := Canonical()
@@ -329,6 +337,22 @@ func CheckC14(opt C14Options) int {
 		sites                                           map[string]int
 	}
 	stats := make([]stat, len(cases))
+	type obsT struct {
+		obs    *Observable
+		files  map[string][]byte
+		prefix []int
+	}
+	refAll := make([]obsT, len(cases))
+	foreignAll := make([]obsT, len(cases))
+	grab := func(rr *RunResult, k int) obsT {
+		o := observe(rr, k)
+		fs := map[string][]byte{}
+		for n := range o.Files {
+			d, _ := rr.SnapFile(k, n)
+			fs[n] = d
+		}
+		return obsT{obs: &o, files: fs}
+	}
 	core.ParallelDo(len(cases), func(ci int) {
 		c := &cases[ci]
 		st := &stats[ci]
@@ -347,7 +371,11 @@ func CheckC14(opt C14Options) int {
 				func(n string) []byte { return refFiles[n] },
 				func(n string) []byte { d, _ := rr.SnapFile(k, n); return d })
 		}, func(i int, rr *RunResult, k int) {
+			if i == c.foreign && rr.Results[k].Done {
+				foreignAll[ci] = grab(rr, k)
+			}
 			if i == 0 && rr.Results[k].Done {
+				refAll[ci] = grab(rr, k)
 				o := observe(rr, k)
 				refObs = &o
 				refFiles = map[string][]byte{}
@@ -385,6 +413,9 @@ func CheckC14(opt C14Options) int {
 				st.sigs[o.Sim.ConflictSig] = true
 				st.traces[o.Sim.TraceHash] = true
 			}
+			if i == c.foreign {
+				foreignAll[ci].prefix = o.Prefix
+			}
 			if i == 0 || i == c.foreign {
 				continue
 			}
@@ -402,6 +433,25 @@ func CheckC14(opt C14Options) int {
 			}
 		}
 	})
+	// history check: a project compiled after other projects in the same process
+	// must give what it gives in a fresh process
+	for ci := range cases {
+		c := &cases[ci]
+		f, r := foreignAll[ci], refAll[c.foreignCase]
+		if f.obs == nil || r.obs == nil {
+			continue
+		}
+		issues := compareObs(*r.obs, *f.obs, func(n string) []byte { return r.files[n] }, func(n string) []byte { return f.files[n] })
+		for _, is := range issues {
+			is.Class += ":after-other-project"
+			hist := &Spec{}
+			for _, pi := range f.prefix {
+				hist.Units = append(hist.Units, c.units[pi])
+			}
+			hist.Units = append(hist.Units, c.units[c.foreign])
+			rep.Note(is, One(c.units[c.foreign]), hist, judgeSuffix(JudgeC14, ":after-other-project"), nil)
+		}
+	}
 	exit := rep.Finish()
 
 	tot := stat{sigs: map[string]bool{}, traces: map[string]bool{}, sites: map[string]int{}}
@@ -486,3 +536,15 @@ func plansOf(us []Unit) []Plan {
 }
 
 var _ = bytes.Equal
+
+// judgeSuffix appends a suffix to every class a judge reports (so that a class
+// found by a derived comparison is recognised again on confirmation and shrinking).
+func judgeSuffix(j Judge, suffix string) Judge {
+	return func(b *Build, spec *Spec) ([]Issue, error) {
+		is, err := j(b, spec)
+		for i := range is {
+			is[i].Class += suffix
+		}
+		return is, err
+	}
+}
